@@ -19,7 +19,7 @@ RUN_MODULE = "Run.C05run"
 AGREE = "agree_C05"
 CASE_TYPE = "case_C05"
 EXTRA_HEADER = ""
-SHARD = 60
+SHARD = 30
 LEVEL_NOTE = ("Theorems are about the Gallina model coq/Valid/*.v of py_gql/validation (TypeInfoVisitor context, "
               "VariablesCollector, the 26 rule visitors) for the tree with fixes/C05-*.patch and fixes/C06-*.patch applied; "
               "the model is tied to the repository by running every rule class separately on generated schemas and "
